@@ -71,7 +71,9 @@ IterNext(i, r) ==
         /\ its' = [its EXCEPT ![i] = [it EXCEPT !.done = TRUE, !.fresh = {}]]
      \/ /\ r # END /\ ~it.done
         /\ \E c \in Owed(it) :
-             /\ r[1] \in reps[c] /\ r[2] = mv[c]
+             \* the key reported is equivalent to the present entry (an iterator may remember the concrete
+             \* key it was parked on - any key of the class is accepted), the value is the current one
+             /\ r[1] \in Keys /\ Cls[r[1]] = c /\ r[2] = mv[c]
              /\ \A d \in Owed(it) : Between(d, it.last, c, it.dir) => d \in it.fresh
              /\ its' = [its EXCEPT ![i] = [it EXCEPT !.last = c, !.fresh = {}]]
 
